@@ -4,7 +4,7 @@ from __future__ import annotations
 from .. import nf
 from ..model import AnalysisError
 from ..values import ExtObj, FuncV, Num
-from .common import GAS, returns, run
+from .common import GAS, only, returns, run
 
 TR, PR, TPC0, PPC, RHO, Z = (nf.sym(x) for x in ("Tr", "pr", "Tpc_abs", "ppc", "rho", "Z"))
 K45967 = nf.const_text("459.67")
@@ -92,3 +92,69 @@ def eos_residual(ctx):
         raise AnalysisError("z_factor_DAK: objective is not a single numeric expression on a single path")
     ctx.touch(box["fi"].qualname)
     return box["F"].nf, box["fi"], box["ev"], paths[0]
+
+
+# ------------------------------------------------------------------------------------------------------------------
+# sign clauses over the declared range of the correlation (interval branch and bound on the normal forms, see signs.py)
+GAS_BOX = {"Tr": (1.05, 3.0), "rho": (1e-9, 3.0)}  # reduced temperature of the property; reduced density up to 3
+VISC_BOX = {"Tr": (1.05, 3.0), "Tpc_abs": (300.0, 800.0), "ppc": (400.0, 1400.0), "specific_gravity": (0.55, 2.0), "@rho": (1e-6, 100.0)}
+
+
+def z_of_rho(ctx):
+    """Z as a function of the reduced density along the equation solved in z_factor_DAK (pr eliminated)"""
+    F_, fi, _ev, _p = eos_residual(ctx)
+    lead = nf.div(nf.mul(nf.const_text("0.27"), PR), nf.mul(TR, RHO))
+    z = nf.sub(lead, F_)
+    if nf.depends(z, "pr"):
+        raise AnalysisError("z_factor_DAK: the solved residual is not 0.27 pr/(Tr rho) - Z(rho, Tr)")
+    return z, fi
+
+
+def isotherm_rules(ctx, rule):
+    """Z(rho -> 0) == 1 exactly; d(rho Z)/d rho > 0 and Z > 0 over the declared range (so pressure is a strictly
+    increasing, continuous function of density on every isotherm: the root is unique, Z is continuous in pressure,
+    density increases with pressure, Z -> 1 as p -> 0); the density range reaches reduced pressure 30."""
+    from .. import signs
+
+    z, fi = z_of_rho(ctx)
+    where = fi.where()
+    q = GAS + "z_factor_DAK"
+    ctx.assume(f"declared range of the gas correlation: Tr in {GAS_BOX['Tr']}, reduced density in (0, {GAS_BOX['rho'][1]}]")
+    ctx.identity(rule, q + ":ideal-gas limit", where, "along the solved equation Z == 1 at zero density (Z -> 1 as pressure -> 0)", nf.subst_sym(z, {"rho": {}}), nf.ONE)
+    G = nf.add(z, nf.mul(RHO, nf.diff(z, "rho")))
+    s, info = signs.decide(G, GAS_BOX, want="+", max_cells=20000)
+    ctx.check(
+        s == "+", rule, q + ":isotherms are monotone", where,
+        "d(rho Z)/d rho > 0 over the declared range: reduced pressure is a strictly increasing continuous function of reduced density, so the solved root is unique, varies continuously with pressure, and density increases with pressure",
+        signature="d(rho Z)/d rho not positive", cells=info.get("cells"), detail={k: str(v)[:120] for k, v in info.items() if k not in ("cells",)},
+    )
+    s, info = signs.decide(z, GAS_BOX, want="+", max_cells=20000)
+    ctx.check(s == "+", rule, q + ":Z positive", where, "Z > 0 over the declared range", signature="Z not positive", cells=info.get("cells"), detail={k: str(v)[:120] for k, v in info.items() if k != "cells"})
+    top = GAS_BOX["rho"][1]
+    reach = nf.sub(nf.div(nf.mul(nf.mul(RHO, TR), z), nf.const_text("0.27")), nf.const(30))
+    s, info = signs.decide(reach, {"Tr": GAS_BOX["Tr"], "rho": (top, top)}, want="+", max_cells=4000)
+    ctx.check(s == "+", rule, q + ":range reaches pr = 30", where, f"at reduced density {top} the reduced pressure exceeds 30 on every isotherm: the density range covers the pressure range of the property", signature="density range too small", cells=info.get("cells"))
+
+
+def viscosity_rules(ctx, rule):
+    """gas viscosity is positive and increases with the library's density (with isotherm_rules: with pressure)"""
+    from .. import signs
+
+    q = GAS + "viscosity_Sutton"
+    fv = ctx.P.func(q)
+    ctx.touch(q)
+    rho = nf.sym("@rho")
+    mu = only(run(ctx, q, args=dict(reduced_args()), stubs={GAS + "density_DAK": lambda bound: Num(rho)}), "viscosity_Sutton").value.nf
+    missing = sorted(nf.symbols(mu) - set(VISC_BOX))
+    if missing:
+        raise AnalysisError(f"{q}: no declared range for {missing}")
+    ctx.assume("declared range for viscosity: " + ", ".join(f"{k} in {v}" for k, v in VISC_BOX.items()) + " (Tpc in Rankine, rho in lb/ft3)")
+    s, info = signs.decide(mu, VISC_BOX, want="+", max_cells=20000)
+    ctx.check(s == "+", rule, q + ":positive", fv.where(), "gas viscosity > 0 over the declared range", signature="viscosity not positive", cells=info.get("cells"), detail={k: str(v)[:120] for k, v in info.items() if k != "cells"})
+    d = nf.diff(mu, "@rho")
+    s, info = signs.decide(d, VISC_BOX, want="+", max_cells=20000)
+    ctx.check(
+        s == "+", rule, q + ":increases with density", fv.where(),
+        "d(viscosity)/d(density) > 0 over the declared range (density increases with pressure on every isotherm, so viscosity increases with pressure)",
+        signature="viscosity not increasing", cells=info.get("cells"), detail={k: str(v)[:120] for k, v in info.items() if k != "cells"},
+    )
